@@ -251,6 +251,17 @@ class SimFS:
     def listing(self):
         return sorted(self.files)
 
+    def _missing(self, path):
+        """The error a POSIX file system gives for a path that does not resolve."""
+        anc = posixpath.dirname(path)
+        while anc not in ("", "/"):
+            if anc in self.files:
+                return NotADirectoryError(_errno.ENOTDIR, "Not a directory", path)
+            if anc in self.dirs:
+                break
+            anc = posixpath.dirname(anc)
+        return FileNotFoundError(_errno.ENOENT, "No such file or directory", path)
+
     # -- os-level operations ---------------------------------------------------------------
     def exists(self, path):
         path = self.norm(path)
@@ -297,13 +308,29 @@ class SimFS:
     def rename(self, src, dst):
         src, dst = self.norm(src), self.norm(dst)
         if src in self.dirs:
-            raise OSError(_errno.EXDEV, "simfs: directory rename not modelled")
+            if dst == src:
+                return
+            if dst in self.files:
+                raise NotADirectoryError(_errno.ENOTDIR, "Not a directory", dst)
+            if dst.startswith(src + "/"):
+                raise OSError(_errno.EINVAL, "Invalid argument", src)
+            if posixpath.dirname(dst) not in self.dirs:
+                raise self._missing(dst)
+            if dst in self.dirs and any(p.startswith(dst + "/") for p in list(self.files) + list(self.dirs)):
+                raise OSError(_errno.ENOTEMPTY, "Directory not empty", dst)
+            for p in [p for p in self.dirs if p == src or p.startswith(src + "/")]:
+                self.dirs.discard(p)
+                self.dirs.add(dst + p[len(src):])
+            for p in [p for p in self.files if p.startswith(src + "/")]:
+                self.files[dst + p[len(src):]] = self.files.pop(p)
+            self.events.append(("rename-dir", src, dst))
+            return
         if src not in self.files:
-            raise FileNotFoundError(_errno.ENOENT, "No such file or directory", src)
+            raise self._missing(src)
         if dst in self.dirs:
             raise IsADirectoryError(_errno.EISDIR, "Is a directory", dst)
         if posixpath.dirname(dst) not in self.dirs:
-            raise FileNotFoundError(_errno.ENOENT, "No such file or directory", dst)
+            raise self._missing(dst)
         over = dst in self.files and dst != src
         if over:
             self.events.append(("overwrite", "rename", src, dst, self.files[dst].ino))
@@ -345,9 +372,7 @@ class SimFS:
         if path in self.dirs:
             raise IsADirectoryError(_errno.EISDIR, "Is a directory", path)
         if posixpath.dirname(path) not in self.dirs:
-            if posixpath.dirname(path) in self.files:
-                raise NotADirectoryError(_errno.ENOTDIR, "Not a directory", path)
-            raise FileNotFoundError(_errno.ENOENT, "No such file or directory", path)
+            raise self._missing(path)
         n_open = self.open_counts.get((path, creating), 0)
         self.open_counts[(path, creating)] = n_open + 1
         plan = None
@@ -372,7 +397,7 @@ class SimFS:
             label = "%s#w%d" % (path[len(ROOT):], n_open)
         else:
             if path not in self.files:
-                raise FileNotFoundError(_errno.ENOENT, "No such file or directory", path)
+                raise self._missing(path)
             inode = self.files[path]
             plan = self.read_plans.get(path)
             label = "%s#r%d" % (path[len(ROOT):], n_open)
